@@ -99,7 +99,7 @@ fn run_case(line: &str) -> String {
     let (head, ops) = line.split_once('|').unwrap();
     let mut hs = head.split_whitespace();
     let mask = mask_of(hs.next().unwrap().parse().unwrap());
-    let timeout = match hs.next().unwrap() { "-" => None, t => Some(Duration::from_nanos(t.parse().unwrap())) };
+    let timeout = match hs.next().unwrap() { "-" => None, "M" => Some(Duration::MAX), t => Some(Duration::from_nanos(t.parse().unwrap())) };
     let (clock, mock) = quanta::Clock::mock();
     // leaked per case: the in-flight hook needs 'static access (a few hundred bytes per case)
     let registry: &'static Reg = Box::leak(Box::new(Registry::new(GenerationalStorage::new(HookStorage))));
@@ -156,6 +156,8 @@ fn main() {
     for line in stdin.lock().lines() {
         let line = line.unwrap();
         if line.trim().is_empty() { continue; }
-        writeln!(w, "{}", run_case(&line)).unwrap();
+        // a panic of the code under test is an outcome ("panic"), not a crash of the driver
+        let r = std::panic::catch_unwind(|| run_case(&line)).unwrap_or_else(|_| "panic".to_string());
+        writeln!(w, "{}", r).unwrap();
     }
 }
